@@ -93,6 +93,10 @@ def run_conv2(c):
     layer = nn.Conv2d(G * cg, G * og, (Kh, Kw), stride=(sh, sw), padding=pad if isinstance(pad, str) else tuple(pad), dilation=(dh, dw), groups=G, bias=True,
                       padding_mode=c.get('pmode', 'zeros'))
     x = torch.randint(-3, 4, (1, G * cg, H, W), generator=g).double()
+    if c.get('layout') == 'channels_last':
+        x = x.to(memory_format=torch.channels_last)
+    elif c.get('layout') == 'transposed':
+        x = x.transpose(-1, -2).contiguous().transpose(-1, -2)
     rp = layer._reversed_padding_repeated_twice           # (w_left, w_right, h_top, h_bottom), also for 'same'
     xp = F.pad(x, rp) if c.get('pmode', 'zeros') == 'zeros' else F.pad(x, rp, mode=c['pmode'])
     Hp, Wp = xp.shape[-2:]
@@ -101,7 +105,7 @@ def run_conv2(c):
     bp = torch.randint(-3, 4, (1, G * og, Ph, Pw), generator=g).double()
     r = compute_conv_grad_sample(layer, [x], bp)
     gw = r[layer.weight][0].reshape(G * og, cg * Kh * Kw)
-    return {'Ph': Ph, 'Pw': Pw, 'Wp': Wp, 'xp': ints(xp[0].reshape(G * cg, Hp * Wp)), 'g': ints(bp[0].reshape(G * og, Ph * Pw).t()), 'gw': ints(gw),
+    return {'Ph': Ph, 'Pw': Pw, 'Wp': Wp, 'xp': ints(xp[0].contiguous().reshape(G * cg, Hp * Wp)), 'g': ints(bp[0].reshape(G * og, Ph * Pw).t()), 'gw': ints(gw),
             'gb': [int(round(v)) for v in r[layer.bias][0].tolist()]}
 
 
